@@ -338,7 +338,7 @@ def slice_unit(name, u, outdir, manifest):
     rules = ([] if u.get("no_default_rules") else DEFAULT_RULES) + list(u.get("rules", [])) + list(u.get("rules_post", []))
     pre, post = "", ""
 
-    if kind in ("table", "struct", "enum"):
+    if kind in ("table", "struct", "enum"):  # noqa
         ob = src.index("{", mo.end() - 1 if src[mo.end() - 1] == "{" else mo.end())
         cb = _scan(src, ob, "{", "}")
         semi = src.index(";", cb)
@@ -350,6 +350,13 @@ def slice_unit(name, u, outdir, manifest):
         if not me:
             raise SliceError("%s: span end %r not found" % (name, u["end"]))
         end = me.end()
+        raw = src[start:end]
+        text = apply_rules(raw, rules, fired)
+    elif kind == "block":
+        # a fragment of a function body: from the anchor (which must end at or before the opening brace) to the matching brace
+        ob = src.index("{", mo.end() - 1)
+        cb = _scan(src, ob, "{", "}")
+        end = cb + 1
         raw = src[start:end]
         text = apply_rules(raw, rules, fired)
     elif kind == "macro":
